@@ -23,14 +23,15 @@ def sec_to_public_pair(
     x = from_bytes_32(sec[1 : 1 + byte_count])
     sec0 = sec[:1]
     if len(sec) == 1 + byte_count * 2:
+        y = from_bytes_32(sec[1 + byte_count : 1 + 2 * byte_count])
         isok = sec0 == b"\4"
         if not strict:
-            isok = isok or (sec0 in [b"\6", b"\7"])
+            # hybrid form: the low bit of the first byte is the parity of y
+            isok = isok or (sec0 == (b"\7" if y & 1 else b"\6"))
         if isok:
-            y = from_bytes_32(sec[1 + byte_count : 1 + 2 * byte_count])
             return (x, y)
     elif len(sec) == 1 + byte_count:
-        if not strict or (sec0 in (b"\2", b"\3")):
+        if sec0 in (b"\2", b"\3"):
             is_y_odd = sec0 != b"\2"
             assert generator is not None
             return cast(tuple[int, int], generator.points_for_x(x)[is_y_odd])
